@@ -590,8 +590,10 @@ impl CompressedResponse {
     /// as it is available with any set of features
     #[cfg(feature = "gzip")]
     pub async fn get_gzip(&self, level: u32) -> &Bytes {
+        verif_point!("memo:enter", (self as *const Self as usize) * 4 + 1);
         self.gzip
             .get_or_init(|| async {
+                verif_point!("memo:compute", (self as *const Self as usize) * 4 + 1);
                 let bytes = self.identity.body().clone();
                 threading::spawn_blocking(move || {
                     let mut buffer = utils::WriteableBytes::with_capacity(bytes.len() / 3 + 64);
@@ -618,8 +620,10 @@ impl CompressedResponse {
     /// as it is available with any set of features
     #[cfg(feature = "br")]
     pub async fn get_br(&self, level: u32) -> &Bytes {
+        verif_point!("memo:enter", (self as *const Self as usize) * 4 + 2);
         self.br
             .get_or_init(|| async {
+                verif_point!("memo:compute", (self as *const Self as usize) * 4 + 2);
                 let bytes = self.identity.body().clone();
                 threading::spawn_blocking(move || {
                     let mut buffer = utils::WriteableBytes::with_capacity(bytes.len() / 3 + 64);
@@ -645,8 +649,10 @@ impl CompressedResponse {
     /// as it is available with any set of features
     #[cfg(feature = "zstd")]
     pub async fn get_zstd(&self, level: i32) -> &Bytes {
+        verif_point!("memo:enter", (self as *const Self as usize) * 4 + 3);
         self.zstd
             .get_or_init(|| async {
+                verif_point!("memo:compute", (self as *const Self as usize) * 4 + 3);
                 let bytes = self.identity.body().clone();
                 threading::spawn_blocking(move || {
                     let mut buffer = utils::WriteableBytes::with_capacity(bytes.len() / 3 + 64);
